@@ -50,17 +50,25 @@ Proof.
   repeat match goal with b : bool |- _ => destruct b end; vm_compute; reflexivity.
 Qed.
 
-Lemma group8_spec fuel : forall l acc m, length l = (8 * m)%nat -> (m <= fuel)%nat ->
-  concat (map byte_bits_msb (rev (group8 fuel l acc))) = concat (map byte_bits_msb (rev acc)) ++ l.
+Lemma len_mod8_spec l : forall k, (k < 8)%nat -> len_mod8 l k = ((k + length l) mod 8)%nat.
 Proof.
-  induction fuel as [|f IH]; intros l acc m Hl Hm; cbn [group8].
-  - assert (m = 0)%nat by lia. subst m. destruct l; [|discriminate]. rewrite app_nil_r. reflexivity.
-  - destruct l as [|b0 l0] eqn:El; [rewrite app_nil_r; reflexivity|]. rewrite <- El in *.
-    destruct m as [|m]; [subst l; discriminate|].
-    assert (H8 : length (firstn 8 l) = 8%nat) by (rewrite firstn_length; lia).
-    rewrite (IH (skipn 8 l) _ m) by (try rewrite skipn_length; lia).
-    cbn [rev]. rewrite map_app, concat_app. cbn [map concat]. rewrite app_nil_r, byte_bits_val_8 by exact H8.
-    rewrite <- app_assoc, firstn_skipn. reflexivity.
+  induction l as [|x t IH]; intros k Hk; cbn [len_mod8 length].
+  - rewrite Nat.add_0_r, Nat.mod_small by exact Hk. reflexivity.
+  - assert (C : (k = 0 \/ k = 1 \/ k = 2 \/ k = 3 \/ k = 4 \/ k = 5 \/ k = 6 \/ k = 7)%nat) by lia.
+    destruct C as [->|[->|[->|[->|[->|[->|[->| ->]]]]]]]; rewrite IH by lia;
+      try (f_equal; lia).
+    replace (7 + S (length t))%nat with (0 + length t + 1 * 8)%nat by lia. rewrite Nat.mod_add by lia. reflexivity.
+Qed.
+
+Lemma group8_spec : forall m l acc, length l = (8 * m)%nat ->
+  concat (map byte_bits_msb (rev (group8 l acc))) = concat (map byte_bits_msb (rev acc)) ++ l.
+Proof.
+  induction m as [|m IH]; intros l acc Hl.
+  - destruct l; [|discriminate]. cbn [group8]. rewrite app_nil_r. reflexivity.
+  - do 8 (destruct l as [|? l]; [cbn [length] in Hl; lia|]).
+    cbn [group8]. rewrite IH by (cbn [length] in Hl; lia).
+    cbn [rev]. rewrite map_app, concat_app. cbn [map concat]. rewrite app_nil_r, byte_bits_val_8 by reflexivity.
+    rewrite <- app_assoc. reflexivity.
 Qed.
 
 Lemma drop_pad p s : (p <= 7)%nat -> drop_to_marker 8 (repeat false p ++ true :: s) = Some s.
@@ -71,6 +79,7 @@ Qed.
 Lemma rbits_open_pack s : rbits_open (pack_rbits s) = Some s.
 Proof.
   unfold rbits_open, pack_rbits, rbits_raw.
+  rewrite len_mod8_spec by lia. change (1 + length s)%nat with (S (length s)).
   set (pad := ((8 - S (length s) mod 8) mod 8)%nat).
   set (full := repeat false pad ++ true :: s).
   assert (Hlen : exists m, length full = (8 * m)%nat).
@@ -82,7 +91,7 @@ Proof.
     - rewrite E. change ((8 - 0) mod 8)%nat with 0%nat. replace (S (length s) + 0)%nat with (q * 8)%nat by lia. rewrite Nat.div_mul by lia. lia.
     - rewrite (Nat.mod_small (8 - r) 8) by lia. replace (S (length s) + (8 - r))%nat with ((q + 1) * 8)%nat by lia. rewrite Nat.div_mul by lia. lia. }
   destruct Hlen as (m & Hm).
-  rewrite rbits_raw_acc_spec, app_nil_r, (group8_spec (length full) full [] m Hm) by lia.
+  rewrite rbits_raw_acc_spec, app_nil_r, (group8_spec m full [] Hm).
   cbn [rev map concat app]. unfold full. apply drop_pad. unfold pad.
   pose proof (Nat.mod_upper_bound (8 - S (length s) mod 8) 8 ltac:(lia)). lia.
 Qed.
@@ -230,6 +239,64 @@ Proof.
     apply IH. exact Hex.
 Qed.
 
+(* ---------- the accumulator form of the encoder equals the recursive one ---------- *)
+Lemma enc_seqs_none_app tll tof tml l : l <> [] -> enc_seqs tll tof tml l = None ->
+  forall pre, enc_seqs tll tof tml (pre ++ l) = None.
+Proof.
+  intros Hne F pre. induction pre as [|p0 pr IH]; [exact F|].
+  cbn [app enc_seqs]. destruct (seq_codes p0); [|reflexivity].
+  destruct (pr ++ l) as [|x t] eqn:El; [destruct pr; [cbn in El; congruence|discriminate]|].
+  rewrite IH. reflexivity.
+Qed.
+
+Lemma enc_seqs_rev_spec tll tof tml : forall pre suf st bits,
+  suf <> [] -> enc_seqs tll tof tml suf = Some (st, bits) ->
+  enc_seqs_rev tll tof tml (rev pre) st bits = enc_seqs tll tof tml (pre ++ suf).
+Proof.
+  induction pre as [|q pre IH] using rev_ind; intros suf st bits Hne H.
+  - cbn [rev app enc_seqs_rev]. symmetry. exact H.
+  - rewrite rev_app_distr. cbn [rev app enc_seqs_rev]. rewrite <- app_assoc. cbn [app].
+    assert (Hq : enc_seqs tll tof tml (q :: suf) =
+                 match seq_codes q with
+                 | None => None
+                 | Some k => match enc_step tll (es_ll st) (k_ll k), enc_step tml (es_ml st) (k_ml k), enc_step tof (es_of st) (k_of k) with
+                             | Some (sl, bl), Some (sm, bm), Some (so, bo) =>
+                               Some ({| es_ll := sl; es_of := so; es_ml := sm |}, k_bits k ++ bl ++ bm ++ bo ++ bits)
+                             | _, _, _ => None
+                             end
+                 end).
+    { cbn [enc_seqs]. destruct (seq_codes q); [|reflexivity]. destruct suf as [|s0 sr]; [congruence|]. rewrite H. reflexivity. }
+    destruct (seq_codes q) as [k|].
+    + destruct (enc_step tll (es_ll st) (k_ll k)) as [[sl bl]|];
+        [|symmetry; apply enc_seqs_none_app; [discriminate|exact Hq]].
+      destruct (enc_step tml (es_ml st) (k_ml k)) as [[sm bm]|];
+        [|symmetry; apply enc_seqs_none_app; [discriminate|exact Hq]].
+      destruct (enc_step tof (es_of st) (k_of k)) as [[so bo]|];
+        [|symmetry; apply enc_seqs_none_app; [discriminate|exact Hq]].
+      apply IH; [discriminate|exact Hq].
+    + symmetry. apply enc_seqs_none_app; [discriminate|exact Hq].
+Qed.
+
+Lemma enc_seqs_fast_eq tll tof tml qs : enc_seqs_fast tll tof tml qs = enc_seqs tll tof tml qs.
+Proof.
+  unfold enc_seqs_fast. rewrite rev'_rev.
+  destruct qs as [|qr q0 _] using rev_ind; [reflexivity|].
+  rewrite rev_app_distr. cbn [rev app].
+  assert (Hq : enc_seqs tll tof tml [qr] =
+               match seq_codes qr with
+               | None => None
+               | Some k => match enc_init tll (k_ll k), enc_init tof (k_of k), enc_init tml (k_ml k) with
+                           | Some sl, Some so, Some sm => Some ({| es_ll := sl; es_of := so; es_ml := sm |}, k_bits k)
+                           | _, _, _ => None
+                           end
+               end) by reflexivity.
+  destruct (seq_codes qr) as [k|]; [|symmetry; apply enc_seqs_none_app; [discriminate|exact Hq]].
+  destruct (enc_init tll (k_ll k)) as [sl|]; [|symmetry; apply enc_seqs_none_app; [discriminate|exact Hq]].
+  destruct (enc_init tof (k_of k)) as [so|]; [|symmetry; apply enc_seqs_none_app; [discriminate|exact Hq]].
+  destruct (enc_init tml (k_ml k)) as [sm|]; [|symmetry; apply enc_seqs_none_app; [discriminate|exact Hq]].
+  apply enc_seqs_rev_spec; [discriminate|exact Hq].
+Qed.
+
 (* ---------- Number_of_Sequences ---------- *)
 Lemma read_nbseq_enc n t : n < 98048 -> read_nbseq (enc_nbseq n ++ t) = Ok (n, t).
 Proof.
@@ -312,7 +379,7 @@ Theorem decode_enc_cblock strict window blockMax e x litsec lits huf' lmode mode
                    push_fwd x1 lits1 (lenN lits1), bt).
 Proof.
   intros Hlit Hne Hn Hm Hll Hof Hml W1 W2 W3 Henc Hex Hfit.
-  unfold enc_seq_stream in Henc. destruct (enc_seqs tll tof tml qs) as [[st bits]|] eqn:Eq; [|discriminate].
+  unfold enc_seq_stream in Henc. rewrite enc_seqs_fast_eq in Henc. destruct (enc_seqs tll tof tml qs) as [[st bits]|] eqn:Eq; [|discriminate].
   injection Henc as <-.
   destruct (enc_seqs_bounds tll tof tml W1 W2 W3 qs st bits Eq) as (B1 & B2 & B3).
   assert (Hq0 : (lenN qs =? 0) = false).
@@ -557,7 +624,7 @@ Proof.
   destruct (enc_seqs_dflt_total qs Hne HF) as (st & bits & Eq).
   destruct dflt_tables_built as (BL & BO & BM). destruct dflt_tables_wf as (W1 & W2 & W3).
   set (stream := pack_rbits (bits_msb (N.to_nat (ft_log dflt_LL)) (es_ll st) ++ bits_msb (N.to_nat (ft_log dflt_OF)) (es_of st) ++ bits_msb (N.to_nat (ft_log dflt_ML)) (es_ml st) ++ bits)).
-  assert (Es : enc_seq_stream dflt_LL dflt_OF dflt_ML qs = Some stream) by (unfold enc_seq_stream; rewrite Eq; reflexivity).
+  assert (Es : enc_seq_stream dflt_LL dflt_OF dflt_ML qs = Some stream) by (unfold enc_seq_stream; rewrite enc_seqs_fast_eq, Eq; reflexivity).
   destruct (decode_enc_cblock strict window blockMax e x (enc_lits_raw lits) lits (e_huf e) 0 0 [] [] [] dflt_LL dflt_OF dflt_ML qs stream x1 lits1 rep1) as (bt & Hd).
   - intros tail. apply decode_lits_raw; assumption.
   - exact Hne.
